@@ -38,8 +38,10 @@ def entry_jobs(maxlen: int, scopes=None) -> list:
 
 def expected_cases(jobs: list) -> int:
     """Closed-form number of (sequence, configuration) points incl. out-of-domain ones."""
-    tot = 0
+    tot = scale_expected(jobs)
     for kind, scope, cls, pi, L, lo, hi in jobs:
+        if kind == "S":
+            continue
         if kind == "A":
             tot += (hi - lo) * len(FRAME_SIZES) * 2
         else:
@@ -90,7 +92,76 @@ def is_nontrivial(seq, preset) -> bool:
         preset[2] and len(dt) > preset[2])
 
 
+# ----------------------------------------------------------------- scale family
+SCALE_PRESETS = ((4000, 150, 32), (128, 16, 16), (129, 17, 3), (8, 2, 1), (256, 0, 0))
+SCALE_KINDS = ("names300", "runs", "longstrings")
+
+
+def scale_seq(kind: str, arity: int) -> list:
+    """Deterministic long sequences that cross the 127/128 id and length boundaries."""
+    from mc.terms import B, DEFAULT, I, L  # noqa: PLC0415
+
+    out = []
+    if kind == "names300":
+        for i in range(300):
+            s = I(f"http://p{i % 20}.example/ns#n{i}")
+            p = I(f"http://p{(i * 7) % 20}.example/ns#p{i % 3}")
+            o = L(str(i), None, f"http://dt.example/{i % 40}") if i % 3 else I(
+                f"http://p{i % 20}.example/ns#n{(i * 5) % 300}")
+            out.append((s, p, o))
+    elif kind == "runs":
+        for i in range(260):
+            s = I(f"http://a/s{i // 5}") if i % 11 else B(f"b{i // 5}")
+            p = I(f"http://a/p{i % 2}")
+            o = L("v" * (i % 4), "en" if i % 4 == 0 else None)
+            out.append((s, p, o))
+    else:
+        for n in (1, 126, 127, 128, 129, 255, 256, 16383, 16384, 70000):
+            out.append((I("http://a/" + "n" * n), I("http://a/p"), L("é" * n)))
+            out.append((B("b" * n), I("http://" + "h" * n + "/x"), L("x", None, "http://d/" + "t" * n)))
+    if arity == 4:
+        gs = [DEFAULT, I("http://g/1"), I("http://g/1"), B("g"), I("http://p3.example/ns#n3")]
+        out = [(*t, gs[(i // 7) % 5]) for i, t in enumerate(out)]
+    return out
+
+
+def scale_jobs() -> list:
+    return [("S", kind, cls, pi, 0, 0, 0) for kind in SCALE_KINDS for cls in DR.CLASSES
+            for pi in range(len(SCALE_PRESETS))]
+
+
+def scale_expected(jobs: list) -> int:
+    return sum(4 * 2 for j in jobs if j[0] == "S")
+
+
+def run_scale_job(job, judge) -> dict:
+    _, kind, cls, pi, _, _, _ = job
+    acc = pool.Acc()
+    preset = SCALE_PRESETS[pi]
+    seq = scale_seq(kind, 3 if cls == "triple" else 4)
+    for fs in (1, 127, 128, 250):
+        for dl in (True, False):
+            acc.evals += 1
+            if not all(AL.fits(st, preset) for st in seq):
+                acc.counters["out_of_domain"] += 1
+                continue
+            acc.nontrivial += 1
+            case = {"family": "scale", "kind": kind, "cls": cls, "preset": list(preset),
+                    "frame_size": fs, "delimited": dl, "writer": "stream_frames_gen"}
+            try:
+                data = DR.g_write(seq, cls, DR.make_options(cls, preset, fs, dl))
+            except Exception as e:  # noqa: BLE001
+                judge(case, seq, None, e, acc)
+                continue
+            judge(case, seq, data, None, acc)
+    acc.sample({"family": "scale", "kind": kind, "cls": cls, "preset": preset,
+                "statements": len(seq)}, cap=1)
+    return acc.out()
+
+
 def run_job(job, judge, include_out_of_domain: bool = False) -> dict:
+    if job[0] == "S":
+        return run_scale_job(job, judge)
     kind, scope, cls, pi, L, lo, hi = job
     acc = pool.Acc()
     arity = 3 if cls == "triple" else 4
@@ -132,6 +203,9 @@ def run_job(job, judge, include_out_of_domain: bool = False) -> dict:
 def case_inputs(case: dict):
     """Rebuild (seq, opts) from a replay case."""
     arity = 3 if case["cls"] == "triple" else 4
+    if case.get("family") == "scale":
+        return scale_seq(case["kind"], arity), DR.make_options(
+            case["cls"], tuple(case["preset"]), case["frame_size"], case["delimited"])
     alpha = AL.alphabet(case["scope"], arity)
     seq = [alpha[i] for i in case["seq"]]
     opts = DR.make_options(case["cls"], tuple(case["preset"]), case["frame_size"],
